@@ -70,7 +70,7 @@ structure SnapInv (n : Node) (d : Disk) : Prop where
     from, `X` tree nodes that need no record yet (the block being submitted), `T` ghost ids that must keep
     a record, `Q` the blocks still to be written, `Qn` the node's queue field (= `Q` except inside writeAll) -/
 structure Par where
-  P : BlockId → List Coin → Prop
+  P : Snap → Prop
   base : Disk
   X : BlockId → Prop := (· = 0)
   T : List BlockId := []
@@ -247,6 +247,10 @@ theorem InvQ.fail (h : InvQ c s) (m : String) : InvQ c (s.fail m) := by
   split
   · exact h
   · exact ⟨h.hist, h.pref, h.node, h.snap, h.qeq⟩
+
+/-- the ghost flag is not mentioned by the invariant -/
+theorem InvQ.setForeign (h : InvQ c s) (f : Bool) : InvQ c { s with foreign := f } :=
+  ⟨h.hist, h.pref, h.node, h.snap, h.qeq⟩
 
 theorem InvQ.ghostSet (h : InvQ c s) (T' : List BlockId)
     (hT : ∀ id ∈ T', id = 0 ∨ (rf[s.n, id]).isSome) : InvQ { c with T := T' } s :=
